@@ -58,13 +58,13 @@ SPEC = dict(
           "interface and foreign parameter types, several parameters, zero-arg constants of every result kind incl. "
           "2^53 / MaxUint64, trailing error nil/non-nil/not last, six panicking bodies, variadic of several kinds, "
           "defined types of primitive kind (time.Duration style) as parameter and result, results that are slices / arrays / maps of Go numbers ([]int, [2]uint8, [][]int, []time.Duration, map[string]int, map[int8]float32, map[string][]int, also through interface{} and in a multi-result), two non-functions) + 12 plugin functions (util.ECALPluginFunction: returning values, errors, panicking on a missing / NULL / wrong-kind argument, explicit panic, nil-map write, nil dereference) registered through the real stdlib.AddStdlibPluginFunc / LoadStdlibPlugin / LoadStdlibPlugins (with one definition whose symbol is missing: exactly that one must be reported) via the package's pluginTestLookup hook + every function of the generated stdlib (enumerated from GetStdlibSymbols) x all "
-          "argument vectors over a 42-value universe (28 core values + 14 further numbers) {null,true,false,0,-1,1,1.5,127,128,255,256,2^31,2^53,1e300,NaN,"
-          "'','a','1',[],[1],{},{'a':1},an ECAL function,-129,-0.5,2^63,-Inf,1.5*2^63 | 40000,2^31-1,65536,2^32,2^64,-2^31-1,-2^63,0.1,2^24+1,3.4028235677973366e38 (rounds to +Inf in float32),+Inf,-0.0,1e-40 (float32 subnormal),1e-46 (underflows)}: Run called directly for length <=2 "
+          "argument vectors over a 50-value universe (28 core values + 22 further numbers) {null,true,false,0,-1,1,1.5,127,128,255,256,2^31,2^53,1e300,NaN,"
+          "'','a','1',[],[1],{},{'a':1},an ECAL function,-129,-0.5,2^63,-Inf,1.5*2^63 | 40000,2^31-1,65536,2^32,2^64,-2^31-1,-2^63,0.1,2^24+1,3.4028235677973366e38 (rounds to +Inf in float32),+Inf,-0.0,1e-40 (float32 subnormal),1e-46 (underflows) | lo, hi, lo-1, hi+1 of every integer kind where exactly a float64 (generated: -128,32767,-32768,-32769,32768,-2^31,65535,2^32-1 …)}: Run called directly for length <=2 "
           "over the whole universe and (thorough) length 3 over the core values exhaustively, 3 / 4,5 sampled, through the interpreter (arguments as ECAL literals "
           "where one exists) and inside try (arguments in variables) for length <=1 over the whole universe and length 2 over the core values exhaustively "
           "(generated stdlib in the quick tier: sampled), 3 (thorough: 3 and 4) sampled. For the 64 real stdlib functions the returned value is compared "
           "(float bits) with a direct reflect call of the wrapped Go function on the converted arguments. Error values returned by the functions: a plain "
-          "error, a typed nil pointer, an Error() that panics, a nil *util.RuntimeError / *RuntimeErrorWithDetail, a proper *util.RuntimeError. "
+          "error, a typed nil pointer, an Error() that panics, a nil *util.RuntimeError / *RuntimeErrorWithDetail, a non-nil *RuntimeErrorWithDetail with nil embedded pointer, runtime errors whose Type is nil, a proper *util.RuntimeError; last results of a concrete (*T) and of a derived (interface{error; Code() int}) error type; panic VALUES typed-nil error and bad Error(). interface{} results (synthetic, in a multi-result, and from plugins) of every Go numeric kind and of defined numeric types. "
           "panic(nil) is run under the harness's own semantics (go >= 1.21) and under GODEBUG=panicnil=1 (modes d/i/t). Compared: outcome class (value / the function's own "
           "error / bridge error / escaped panic), the returned value (float64 bits, canonical structure), and the "
           "Go values the function RECEIVED (kind + exact integer); where an argument is converted out of its parameter kind's range "
@@ -82,7 +82,8 @@ SPEC = dict(
         "float32 conversion: Num.toF32 is IEEE round-to-nearest-even with subnormals, overflow and signed zero; proved exact for representable values (float32_exact_when_representable), the rounding itself is tied by the correspondence run (0.1, 2^24+1, 2^31-1, MaxFloat32+, 1e-40, 1e-46)",
         "the go/ast extractor of three source facts (harness C19 -tool, go/cmd/harness/c19extract.go), decided semantically and three-valued: Run defers a function (literal or same-package) that itself calls recover() and assigns the named error result; the argument count is compared with NumIn() before Call (Run or one level of helpers); plugin functions are registered as ECALFunctionAdapter. Only a refuted fact breaks an obligation; an unestablished one is assumed, noted, and answered with an amplified search",
         "the harness sets stdlib.pluginTestLookup (unexported test hook) by go:linkname; a real plugin (.so built with -buildmode=plugin, opened by plugin.Open) cannot be built in the offline sandbox (needs cgo and the plugin toolchain; the harness is built with CGO_ENABLED=0), so plugin.Open itself and the symbol lookup of a real shared object are not exercised — everything after the lookup (type assertion to util.ECALPluginFunction, wrapping, registration, calls) is",
-        "out-of-range float->integer conversion is implementation-defined in Go: the platform's value is handed to the model as an oracle and no exactness theorem covers it",
+        "the deferred function of Run does not panic itself: it formats the recovered value with fmt's %v, which guards panicking Error() methods (exercised: panic values typed-nil error and an error whose Error() panics; not a source fact)",
+        "out-of-range float->integer conversion is implementation-defined in Go; with the range check of fixes/C19-argument-out-of-range.patch the code never performs one (proved for the model: out_of_range_argument_is_error). The harness still marks such arguments (`!`) and the model must agree with the marker; the `oob` oracle parameter of the model is not consulted any more",
         "interpreter/rt_identifier.go executeFunction: the Debugger hooks (VisitStepInState / VisitStepOutState) are not attached in the runs and not modelled; rerr.Type = err for iterator error texts is not modelled",
         "bodies of the generated stdlib (math.*) are assumed not to panic (checked by every run); math.jn/math.yn with |order| > 256 are left out (slow bodies)",
     ],
@@ -107,7 +108,7 @@ META = dict(
                 "Totality itself (no panic escapes Run / the interpreter) is NOT a consequence of the model of reflect: it is Go's defer/recover "
                 "semantics plus the regenerated source facts (recover shape, completion flag for panic(nil), guarded Error()/AddTrace, plugin "
                 "registration behind the adapter), and the differential run. Model tied to adapter.go, stdlib.go and rt_identifier.go by a run that is "
-                "exhaustive for short vectors over a 42-value universe (not over all ECAL values)."),
+                "exhaustive for short vectors over a 50-value universe (not over all ECAL values)."),
     level_note=("Trusted: Lean kernel + propext/Classical.choice/Quot.sound; the model of reflect's checks; the extractor; the harness; Go's defer/recover and "
                 "GODEBUG panicnil semantics. Out-of-range float->int conversions are implementation-defined and only covered by totality. The theorems "
                 "describe /repo WITH fixes/C19-error-value-after-recover.patch, C19-panic-nil.patch and C19-iface-result-numbers.patch; on a tree without "
@@ -117,7 +118,14 @@ META = dict(
                 "fixes/C19-nested-result-numbers.patch (convert such results into ECAL lists / maps) is NOT applied: it would break Go->Go round trips "
                 "through ECAL that work today (a raw []string result of one bridged function handed to a []string parameter of another; []byte results "
                 "handed back), because the adapter's parameter check compares types for identity. Also passed on raw, by design: Go numbers a function "
-                "has put INTO a []interface{} / map[interface{}]interface{}, complex numbers, struct fields. Limitations proved as theorems, each answered with an error: parameters of interface type — including plain interface{} — reject every "
+                "has put INTO a []interface{} / map[interface{}]interface{}, complex numbers, struct fields. The theorems describe /repo WITH fixes/C19-runtime-error-without-type.patch and fixes/C19-argument-out-of-range.patch (a number outside the "
+                "parameter kind's range is an error: out_of_range_argument_is_error; before, it was silently wrapped, platform dependent). "
+                "NOT checked: that the error is 'descriptive' — message texts are never compared, 'Error: <nil>' (panic(nil), typed-nil panic value) passes. "
+                "interpreter_never_crashes / try_except_never_crashes range over the SIX kinds of error value the model distinguishes and end at "
+                "executeFunction's return resp. at try/except's reading of Type; other consumers of the error (sink error maps) are not modelled. "
+                "Whole classes of well-formed calls are always answered with an error by the code (the property text permits 'results OR a descriptive "
+                "error', so these are limitations, not known findings; a repair of them is accepted via spec= only for defined numeric parameter types): "
+                "Limitations proved as theorems, each answered with an error: parameters of interface type — including plain interface{} — reject every "
                 "argument; a variadic ...interface{} function (plugins) accepts at most one variadic argument; numeric variadics (...int, ...float64) and "
                 "parameters of a defined numeric type (time.Duration) accept no number. Mode R's reference semantics (Ecal.Reentry) is a specification; "
                 "the evidence that resolveFunction follows it is the differential run only."),
